@@ -80,7 +80,7 @@ Print Assumptions c13_results_order_and_uniqueness.
 Theorem c13_prepare : forall c rerun d, c_complete c = true ->
   exists c', prepare c rerun d = Some c' /\
     c_complete c' = false /\ c_submitter c' = c_submitter c /\ c_num c' = c_num c /\ c_groups c' = c_groups c /\
-    c_submitted c' = (c_num c - Z.of_nat (length rerun))%Z /\
+    c_submitted c' = Z.of_nat (length (filter (fun j => negb (memN (s_name j) rerun) && negb (jstate_eqb (s_state j) NOT_SUBMITTED)) (c_jobs c))) /\
     c_completed c' = Z.of_nat (length (filter (fun j => negb (memN (s_name j) rerun) && jstate_eqb (s_state j) DONE) (c_jobs c))) /\
     c_jobs c' = map (prep_job rerun d) (c_jobs c) /\
     map s_name (c_jobs c') = map s_name (c_jobs c).
@@ -91,13 +91,14 @@ Theorem c13_prepare_untouched : forall rerun d j, ~ In (s_name j) rerun -> prep_
 Proof. exact prep_job_other. Qed.
 Print Assumptions c13_prepare_untouched.
 
+(* the counters written by the reset describe the job table written with them: submitted = jobs that
+   are not NOT_SUBMITTED, completed = DONE jobs, 0 <= completed <= submitted <= num_jobs *)
 Theorem c13_prepare_counters : forall c rerun d c',
   prepare c rerun d = Some c' ->
-  c_num c = Z.of_nat (length (c_jobs c)) -> NoDup (map s_name (c_jobs c)) ->
-  NoDup rerun -> incl rerun (map s_name (c_jobs c)) ->
-  (c_submitted c' = Z.of_nat (length (filter (fun j => negb (memN (s_name j) rerun)) (c_jobs c))) /\
-   0 <= c_completed c' <= c_submitted c' /\ c_submitted c' <= c_num c' /\
-   (c_num c' - c_submitted c' = Z.of_nat (length rerun)))%Z.
+  c_submitted c' = Z.of_nat (length (filter (fun j => negb (jstate_eqb (s_state j) NOT_SUBMITTED)) (c_jobs c'))) /\
+  c_completed c' = Z.of_nat (length (filter (fun j => jstate_eqb (s_state j) DONE) (c_jobs c'))) /\
+  (0 <= c_completed c' <= c_submitted c')%Z /\
+  (c_num c = Z.of_nat (length (c_jobs c)) -> (c_submitted c' <= c_num c')%Z).
 Proof. exact prepare_counters. Qed.
 Print Assumptions c13_prepare_counters.
 
@@ -185,7 +186,7 @@ Definition ex_world (sub : option N) (complete : bool) (ev : option (list N)) : 
   {| w_cluster := ex_cluster sub complete; w_rows := ex_rows; w_results := ex_rows; w_config := ex_config; w_events := ev |}.
 
 (* default flags on: 1 failed, 2 canceled, 3 and 4 successful, 5 missing; no events directory.
-   Rerun = {1,2,5} + dependent 3; row of job 4 survives; role released; counters 5-4 / 1. *)
+   Rerun = {1,2,5} + dependent 3; row of job 4 survives; role released; counters submitted 1 / completed 1. *)
 Example c13_ex_command_default_flags_no_events_dir :
   resubmit 77 true true false None FNone (fun w => w) 0 (ex_world None true None) =
   (Exit 0,
